@@ -4,6 +4,7 @@ from __future__ import annotations
 
 import ast
 
+from ..alpha import Loc, amatch
 from ..cfg import CFG, handler_names
 from ..const import UNKNOWN, Folder
 from ..flow import flat_guards, parent_map
@@ -42,6 +43,31 @@ ACTIONS = {
 }
 
 
+def _ancestors(root: ast.AST, node: ast.AST) -> list[ast.AST]:
+    pm = parent_map(root)
+    out = []
+    cur = pm.get(id(node))
+    while cur is not None:
+        out.append(cur)
+        cur = pm.get(id(cur))
+    return out
+
+
+def _in_if_body(root: ast.AST, node: ast.AST) -> bool:
+    """is node inside the body (not the else) of the outermost `if` of the function that contains it"""
+    pm = parent_map(root)
+    cur, prev = pm.get(id(node)), node
+    top = None
+    while cur is not None:
+        if isinstance(cur, ast.If):
+            top = (cur, prev)
+        prev, cur = cur, pm.get(id(cur))
+    if top is None:
+        return False
+    iff, child = top
+    return any(child is s or any(child is x for x in ast.walk(s)) for s in iff.body)
+
+
 def check(model: Model, run: Run) -> None:
     folder = Folder(model)
     mod = model.module('exabgp/bgp/message/update/nlri/flow.py')
@@ -66,16 +92,25 @@ def check(model: Model, run: Run) -> None:
     mask = folder.fold(clear.value, mod, None) if clear is not None else UNKNOWN
     okc = clear is not None and mask == (0xFF ^ 0x80) and eol == 0x80 and andb == 0x40
     run.check(okc, pf.qualname, 'EOL cleared with mask %s on every operator (AND bit 0x40 untouched)' % (hex(mask) if isinstance(mask, int) else mask), pf.loc(clear) if clear is not None else pf.loc(), 'only the end-of-list bit may be rewritten; the AND bit is what the operator wrote')
-    oks = seteol is not None and norm(seteol.target) == 'rules[-1].operations' and folder.fold(seteol.value, mod, None) == 0x80
+    last_b = amatch('V_r[-1].operations', seteol.target) if seteol is not None else None
+    oks = last_b is not None and folder.fold(seteol.value, mod, None) == 0x80
     if oks:
         pm = parent_map(pf.node)
         oks = isinstance(pm.get(id(seteol)), ast.If) or isinstance(pm.get(id(seteol)), ast.For)
         # cleared in an inner loop over all rules, set after it
         inner = [l for l in walk_no_nested(outer) if isinstance(l, ast.For) and l is not outer and clear is not None and any(x is clear for x in ast.walk(l))]
-        oks = bool(inner) and seteol.lineno > inner[0].end_lineno
+        # the list whose last element gets the bit is the list the clearing loop walked
+        oks = bool(inner) and seteol.lineno > inner[0].end_lineno and isinstance(inner[0].iter, ast.Name) and inner[0].iter.id == last_b['V_r']
     run.check(bool(oks), pf.qualname, 'EOL set on rules[-1] after the clearing loop', pf.loc(seteol) if seteol is not None else pf.loc(), 'RFC 8955 4.2.1.1: end-of-list on exactly the last {operator, value} pair of a component')
-    comp = [n for n in walk_no_nested(pf.node) if isinstance(n, ast.Assign) and dotted(n.targets[0]) == 'components']
-    okrd = len(comp) == 1 and norm(comp[0].value).startswith('bytes(rd_to_use.pack_rd()) + ')
+    comp = []
+    for n in walk_no_nested(pf.node):
+        if isinstance(n, ast.Assign) and isinstance(n.value, ast.BinOp) and isinstance(n.value.op, ast.Add):
+            left = n.value
+            while isinstance(left, ast.BinOp) and isinstance(left.op, ast.Add):
+                left = left.left
+            if amatch('bytes(E_rd.pack_rd())', left) is not None:
+                comp.append(n)
+    okrd = len(comp) == 1
     run.check(okrd, pf.qualname, 'components = RD + ordered rules', pf.loc(comp[0]) if comp else pf.loc(), 'RFC 8955 8: for flow-vpn the RD comes first')
 
     # ------------------------------------------------------------------ R2 width selection
@@ -94,7 +129,8 @@ def check(model: Model, run: Run) -> None:
                 got.append((None, folder.fold(st.value.elts[0], mod, None)))
         run.check(got == want, f.qualname, 'width table %s' % got, f.loc(), 'RFC 8955 4.2.1.1: each value in the shortest width it fits; expected %s' % want)
         # the packed width matches the announced width
-        fmts = {1: 'bytes([value])', 2: "pack('!H', value)", 4: "pack('!L', value)"}
+        vp = f.node.args.args[-1].arg
+        fmts = {1: 'bytes([%s])' % vp, 2: "pack('!H', %s)" % vp, 4: "pack('!L', %s)" % vp}
         okw = True
         for r in walk_no_nested(f.node):
             if isinstance(r, ast.Return) and isinstance(r.value, ast.Tuple):
@@ -108,9 +144,9 @@ def check(model: Model, run: Run) -> None:
     r = {folder.fold(k, mod, co): folder.fold(v, mod, co) for k, v in zip(rewop.keys, rewop.values)} if isinstance(rewop, ast.Dict) else {}
     run.check(p == {0: 1, 1: 2, 2: 4, 3: 8} and r == {v: k for k, v in p.items()}, co.qualname, 'power %s / rewop %s' % (p, r), co.loc(), 'length bits: 0..3 <-> 1,2,4,8 bytes')
     l2b = model.func(FLOWMOD + '._len_to_bit')
-    run.check(norm(l2b.node.body[-1]) == 'return NumericOperator.rewop[value] << 4', l2b.qualname, norm(l2b.node.body[-1]), l2b.loc(), 'the length field is bits 5-4 of the operator byte')
+    run.check(norm(l2b.node.body[-1]) == 'return NumericOperator.rewop[%s] << 4' % l2b.node.args.args[-1].arg, l2b.qualname, norm(l2b.node.body[-1]), l2b.loc(), 'the length field is bits 5-4 of the operator byte')
     ln = model.func(FLOWMOD + '.CommonOperator.length')
-    run.check(norm(ln.node.body[-1]) == 'return 1 << ((data & CommonOperator.LEN) >> 4)' and folder.class_attr(co.qualname, 'LEN') == 0x30, ln.qualname, norm(ln.node.body[-1]), ln.loc(), 'decoder: width = 1 << length bits')
+    run.check(norm(ln.node.body[-1]) == 'return 1 << ((%s & CommonOperator.LEN) >> 4)' % ln.node.args.args[-1].arg and folder.class_attr(co.qualname, 'LEN') == 0x30, ln.qualname, norm(ln.node.body[-1]), ln.loc(), 'decoder: width = 1 << length bits')
 
     # ------------------------------------------------------------------ R3 component registry
     run.rule('C16.R3', 'component registry: types 1-13 with the RFC 8955 / 8956 names and address families', floor=13)
@@ -147,7 +183,9 @@ def check(model: Model, run: Run) -> None:
     c = {k: folder.fold(mod.assigns[k], mod, None) for k in mod.assigns if k.startswith('FLOW_LENGTH_')}
     ifs = [st for st in el.node.body if isinstance(st, ast.If) and isinstance(st.test, ast.Compare)]
     compact = ifs[0] if ifs else None
-    okc = compact is not None and isinstance(compact.test.ops[0], ast.Lt) and folder.fold(compact.test.comparators[0], mod, None) == 240 and norm(compact.body[-1]) == 'return bytes([lc]) + components'
+    ell = Loc(model, el)
+    cp = el.node.args.args[-1].arg
+    okc = compact is not None and isinstance(compact.test.ops[0], ast.Lt) and ell.expand(compact.test.left) == 'len(%s)' % cp and folder.fold(compact.test.comparators[0], mod, None) == 240 and ell.expand(compact.body[-1]) == 'return bytes([len(%s)]) + %s' % (cp, cp)
     run.check(okc, el.qualname, 'compact form iff length < 240', el.loc(compact) if compact is not None else el.loc(), 'RFC 8955 4.1: one length byte below 240')
     ext = ifs[1] if len(ifs) > 1 else None
     okx = False
@@ -156,21 +194,29 @@ def check(model: Model, run: Run) -> None:
         op = ext.test.ops[0]
         k = folder.fold(ext.test.comparators[0], mod, None)
         top = k if isinstance(op, ast.LtE) else (k - 1 if isinstance(op, ast.Lt) and isinstance(k, int) else None)
-        okx = norm(ext.body[-1]) == "return pack('!H', lc | FLOW_LENGTH_EXTENDED_VALUE << 8) + components" and c.get('FLOW_LENGTH_EXTENDED_VALUE') == 0xF0
+        okx = ell.expand(ext.test.left) == 'len(%s)' % cp and ell.expand(ext.body[-1]) == "return pack('!H', len(%s) | FLOW_LENGTH_EXTENDED_VALUE << 8) + %s" % (cp, cp) and c.get('FLOW_LENGTH_EXTENDED_VALUE') == 0xF0
     run.check(okx, el.qualname, 'extended form = 0xF000 | length on two bytes', el.loc(ext) if ext is not None else el.loc(), 'RFC 8955 4.1: 0xFnnn')
     run.check(top == 4095, el.qualname, 'largest encodable NLRI length is %s' % top, el.loc(ext) if ext is not None else el.loc(), 'RFC 8955 4.1: the two-byte form covers 240 to 4095 inclusive; a rule of exactly 4095 bytes must be encodable')
     # decoder
-    dec = [n for n in walk_no_nested(un.node) if isinstance(n, ast.Assign) and dotted(n.targets[0]) == 'length' and isinstance(n.value, ast.BinOp)]
+    unl = Loc(model, un)
+    dparam = un.node.args.args[3].arg if len(un.node.args.args) > 3 else '?'
+    dec = []
+    lenv = None
     okd = False
     shift = None
-    if dec:
-        v = dec[0].value
-        if isinstance(v.op, ast.Add) and isinstance(v.left, ast.BinOp) and isinstance(v.left.op, ast.LShift):
-            shift = folder.fold(v.left.right, mod, None)
-            lowmask = folder.fold(v.left.left.right, mod, None) if isinstance(v.left.left, ast.BinOp) and isinstance(v.left.left.op, ast.BitAnd) else None
-            okd = lowmask == 0x0F and dotted(v.right) == 'extra'
-    marker = [n for n in walk_no_nested(un.node) if isinstance(n, ast.If) and 'FLOW_LENGTH_EXTENDED_MASK' in norm(n.test)]
-    okm = bool(marker) and c.get('FLOW_LENGTH_EXTENDED_MASK') == 0xF0 and c.get('FLOW_LENGTH_EXTENDED_VALUE') == 0xF0 and norm(marker[0].test) == 'length & FLOW_LENGTH_EXTENDED_MASK == FLOW_LENGTH_EXTENDED_VALUE'
+    for n in walk_no_nested(un.node):
+        if isinstance(n, ast.Assign) and isinstance(n.targets[0], ast.Name):
+            b = amatch('((V_l & E_m) << E_s) + V_x', n.value, {'V_l': n.targets[0].id})
+            if b is not None:
+                dec.append(n)
+                lenv = n.targets[0].id
+                shift = folder.fold(ast.parse(str(b['E_s']), mode='eval').body, mod, None)
+                lowmask = folder.fold(ast.parse(str(b['E_m']), mode='eval').body, mod, None)
+                # the low byte is the next byte of the buffer
+                second = any(isinstance(v, ast.Subscript) and dotted(v.value) == dparam and folder.fold(v.slice, mod, None) == 0 for v in unl.values(str(b['V_x'])))
+                okd = lowmask == 0x0F and second
+    marker = [n for n in walk_no_nested(un.node) if isinstance(n, ast.If) and lenv is not None and amatch('V_l & FLOW_LENGTH_EXTENDED_MASK == FLOW_LENGTH_EXTENDED_VALUE', n.test, {'V_l': lenv}) is not None]
+    okm = bool(marker) and c.get('FLOW_LENGTH_EXTENDED_MASK') == 0xF0 and c.get('FLOW_LENGTH_EXTENDED_VALUE') == 0xF0
     run.check(okd and okm, un.qualname, 'two-byte form recognised by the 0xF0 nibble, low nibble kept', un.loc(dec[0]) if dec else un.loc(), 'the reader must invert the writer')
     if shift != 8:
         run.violation(
@@ -183,7 +229,7 @@ def check(model: Model, run: Run) -> None:
         )
     else:
         run.ok('unpack_nlri: high nibble << 8')
-    run.check(any(isinstance(n, ast.If) and norm(n.test) == 'length > len(data)' and isinstance(n.body[-1], ast.Raise) for n in walk_no_nested(un.node)), un.qualname, 'declared length checked against the data left', un.loc(), 'a truncated NLRI must be refused')
+    run.check(any(isinstance(n, ast.If) and lenv is not None and (amatch('V_l > len(V_d)', n.test, {'V_l': lenv, 'V_d': dparam}) is not None or amatch('len(V_d) < V_l', n.test, {'V_l': lenv, 'V_d': dparam}) is not None) and isinstance(n.body[-1], ast.Raise) for n in walk_no_nested(un.node)), un.qualname, 'declared length checked against the data left', un.loc(), 'a truncated NLRI must be refused')
 
     # ------------------------------------------------------------------ R5 never a shorter rule
     run.rule('C16.R5', 'a malformed NLRI is never delivered as a shorter rule: undefined component and truncated value raise; no break/continue keeps partial rules; the value slice is compared with its announced width; unpack_nlri maps the failures to NLRI.INVALID', floor=6)
@@ -194,22 +240,30 @@ def check(model: Model, run: Run) -> None:
     for f in (pr, po):
         bad = [n for n in walk_no_nested(f.node) if isinstance(n, (ast.Break, ast.Continue))]
         run.check(not bad, f.qualname, 'no break/continue in the component walk', f.loc(bad[0]) if bad else f.loc(), 'leaving the walk early keeps the rules parsed so far: a shorter, broader rule')
-    und = [n for n in walk_no_nested(pr.node) if isinstance(n, ast.If) and 'what not in decode' in norm(n.test)]
+    und = [n for n in walk_no_nested(pr.node) if isinstance(n, ast.If) and amatch('V_w not in decode.get(self.afi, {})', n.test) is not None]
     run.check(bool(und) and isinstance(und[0].body[-1], ast.Raise), pr.qualname, 'undefined component raises', pr.loc(und[0]) if und else pr.loc(), 'RFC 8955 4.3: an unknown component makes the NLRI malformed')
     # value slice vs announced width
-    sl = [n for n in walk_no_nested(po.node) if isinstance(n, ast.Assign) and isinstance(n.targets[0], ast.Tuple) and 'bgp[:length]' in norm(n.value)]
+    bp = po.node.args.args[2].arg if len(po.node.args.args) > 2 else '?'
+    sl = []
+    vname = wname = None
+    for n in walk_no_nested(po.node):
+        if isinstance(n, ast.Assign) and isinstance(n.targets[0], ast.Tuple) and isinstance(n.value, ast.Tuple) and len(n.value.elts) == 2:
+            for pat in ('bytes(V_b[:V_n])', 'V_b[:V_n]'):
+                b = amatch(pat, n.value.elts[0], {'V_b': bp})
+                if b is not None and amatch('V_b[V_n:]', n.value.elts[1], b) is not None:
+                    sl.append(n)
+                    vname, wname = dotted(n.targets[0].elts[0]), str(b['V_n'])
     okv = False
     why = 'value slice not found'
     if sl:
-        vname = dotted(sl[0].targets[0].elts[0])
-        after = [n for n in walk_no_nested(po.node) if isinstance(n, ast.If) and n.lineno > sl[0].lineno and isinstance(n.test, ast.Compare) and norm(n.test) in ('len(%s) != length' % vname, 'len(%s) < length' % vname, 'length != len(%s)' % vname) and isinstance(n.body[-1], ast.Raise)]
-        before = [n for n in walk_no_nested(po.node) if isinstance(n, ast.If) and n.lineno < sl[0].lineno and isinstance(n.test, ast.Compare) and norm(n.test) in ('len(bgp) < length', 'length > len(bgp)') and isinstance(n.body[-1], ast.Raise)]
+        after = [n for n in walk_no_nested(po.node) if isinstance(n, ast.If) and n.lineno > sl[0].lineno and any(amatch(pt, n.test, {'V_v': vname, 'V_n': wname}) is not None for pt in ('len(V_v) != V_n', 'len(V_v) < V_n', 'V_n != len(V_v)', 'V_n > len(V_v)')) and isinstance(n.body[-1], ast.Raise)]
+        before = [n for n in walk_no_nested(po.node) if isinstance(n, ast.If) and n.lineno < sl[0].lineno and any(amatch(pt, n.test, {'V_b': bp, 'V_n': wname}) is not None for pt in ('len(V_b) < V_n', 'V_n > len(V_b)')) and isinstance(n.body[-1], ast.Raise)]
         okv = bool(after or before)
-        why = 'bgp[:length] is cut without comparing the bytes obtained with the announced width'
+        why = 'the value is cut out of the buffer without comparing the bytes obtained with the announced width'
     run.check(okv, po.qualname, 'value of announced width checked to be complete', po.loc(sl[0]) if sl else po.loc(), why + ': a value cut short by the end of the NLRI is read at a smaller width and the rule delivered')
-    wid = [n for n in walk_no_nested(po.node) if isinstance(n, ast.If) and norm(n.test) == 'length not in _VALUE_WIDTHS' and isinstance(n.body[-1], ast.Raise)]
+    wid = [n for n in walk_no_nested(po.node) if isinstance(n, ast.If) and wname is not None and amatch('V_n not in _VALUE_WIDTHS', n.test, {'V_n': wname}) is not None and isinstance(n.body[-1], ast.Raise)]
     run.check(bool(wid), po.qualname, 'undefined width raises', po.loc(), 'widths are 1, 2, 4, 8')
-    eolk = [n for n in walk_no_nested(po.node) if isinstance(n, ast.If) and norm(n.test) == 'not bgp' and isinstance(n.body[-1], ast.Raise)]
+    eolk = [n for n in walk_no_nested(po.node) if isinstance(n, ast.If) and amatch('not V_b', n.test, {'V_b': bp}) is not None and isinstance(n.body[-1], ast.Raise)]
     run.check(bool(eolk), po.qualname, 'component without end-of-list raises', po.loc(), 'running out of bytes before EOL is malformed')
     tries = [n for n in walk_no_nested(un.node) if isinstance(n, ast.Try)]
     okh = False
@@ -217,8 +271,9 @@ def check(model: Model, run: Run) -> None:
         hs = {}
         for h in tries[-1].handlers:
             for nm in handler_names(h):
-                hs[nm] = norm(h.body[-1])
-        okh = all(hs.get(k) == 'return (NLRI.INVALID, over)' for k in ('Notify', 'ValueError', 'IndexError'))
+                last = h.body[-1]
+                hs[nm] = isinstance(last, ast.Return) and isinstance(last.value, ast.Tuple) and len(last.value.elts) == 2 and dotted(last.value.elts[0]) == 'NLRI.INVALID'
+        okh = all(hs.get(k) is True for k in ('Notify', 'ValueError', 'IndexError'))
     run.check(okh, un.qualname, 'Notify/ValueError/IndexError -> NLRI.INVALID', un.loc(), 'RFC 8955 4.3: malformed NLRI is treated as a withdraw, never as a shorter rule')
 
     # ------------------------------------------------------------------ R6 traffic actions
@@ -241,6 +296,18 @@ def check(model: Model, run: Run) -> None:
     cfg = CFG(gc.node, may_raise=lambda st: False)
     ys = [n for n in walk_no_nested(gc.node) if isinstance(n, ast.Yield)]
     stale: dict[int, bool] = {}
+    gl = Loc(model, gc)
+    # the flag: the local OR-ed into the operator of every yielded condition, bound to BinaryOperator.NOP / AND
+    flag_names = set(gl.from_value(lambda v: (dotted(v) or '') in ('BinaryOperator.NOP', 'BinaryOperator.AND')))
+    used = set()
+    for y in ys:
+        for x in ast.walk(y.value) if y.value is not None else []:
+            if isinstance(x, ast.BinOp) and isinstance(x.op, ast.BitOr):
+                used |= {o.id for o in (x.left, x.right) if isinstance(o, ast.Name) and o.id in flag_names}
+    if len(used) != 1:
+        run.cannot('_generic_condition: the AND flag OR-ed into the yielded operators was not found (%s)' % sorted(used))
+        return
+    FLAG = next(iter(used))
 
     def transfer(node, val):
         # val: 'fresh' when AND was (re)assigned since the last yielded operator, 'stale' otherwise
@@ -248,7 +315,7 @@ def check(model: Model, run: Run) -> None:
         if node.kind == 'stmt' and a is not None:
             if isinstance(a, (ast.Assign, ast.AnnAssign)):
                 tg = a.targets[0] if isinstance(a, ast.Assign) else a.target
-                if isinstance(tg, ast.Name) and tg.id == 'AND':
+                if isinstance(tg, ast.Name) and tg.id == FLAG:
                     return ['fresh']
             for y in ys:
                 if any(x is y for x in ast.walk(a)):
@@ -261,11 +328,11 @@ def check(model: Model, run: Run) -> None:
 
     propagate(cfg, 'stale', transfer)
     for y in ys:
-        uses_and = 'AND' in {x.id for x in ast.walk(y.value) if isinstance(x, ast.Name)} if y.value is not None else False
+        uses_and = FLAG in {x.id for x in ast.walk(y.value) if isinstance(x, ast.Name)} if y.value is not None else False
         run.check(
             uses_and and stale.get(y.lineno) is False,
             gc.qualname,
-            'operator at line %d built with the AND flag, which is reassigned before every operator' % y.lineno,
+            'operator %s built with the AND flag, which is reassigned before every operator' % ('of the bracketed list form' if any(isinstance(p_, ast.If) for p_ in _ancestors(gc.node, y)) and _in_if_body(gc.node, y) else 'of the plain form'),
             gc.loc(y),
             'a path reaches this operator without AND having been reassigned since the previous one: an "&" seen earlier leaks onto later OR terms, `[ >8080&<8088 =3128 ]` is sent as three ANDed tests',
         )
